@@ -3,6 +3,7 @@ package main
 import (
 	"bytes"
 	"encoding/json"
+	"path/filepath"
 	"fmt"
 	"path"
 	"sort"
@@ -133,7 +134,7 @@ func c19Gen(r *Run, rng *gen.Rng, corpus []string) *c19Inv {
 	// input file name variants
 	main := gw.Main
 	if rng.Chance(55) {
-		nm := rng.Pick([]string{"a.b.tsh", "noext", "my prog.tsh", "rel.v1/prog.tsh", "x.y.z", "UPPER.TSH", "prog.tsh.bak", "sub dir/m.tsh", "p.", "tsh", "bash", "batch", "out", "-x.tsh"})
+		nm := rng.Pick([]string{"a.b.tsh", "noext", "my prog.tsh", "rel.v1/prog.tsh", "x.y.z", "UPPER.TSH", "prog.tsh.bak", "sub dir/m.tsh", "p.", "tsh", "bash", "batch", "out", "-x.tsh", "my%20prog.tsh", "100%.tsh", "50%done.v2.tsh", "%s.tsh", "report[1].tsh", "a*b.tsh", "q?.tsh"})
 		// imports are relative to the main file's directory: keep the directory, change the base name
 		nm = path.Join(path.Dir(main), path.Base(nm))
 		if rng.Chance(33) && path.Dir(main) == "." && len(gw.Closure) == 1 {
@@ -171,9 +172,9 @@ func c19Gen(r *Run, rng *gen.Rng, corpus []string) *c19Inv {
 		gw.Set(victim, data)
 		inv.ProgKind = "mutated:" + desc
 	}
-	mount := rng.Pick([]string{"/sim/m", "/w/my proj", "/home/u/src", "/home/u/.dotfiles/p", "/w/proj-1.2/src"})
+	mount := rng.Pick([]string{"/sim/m", "/w/my proj", "/home/u/src", "/home/u/.dotfiles/p", "/w/proj-1.2/src", "/w/100% (x)"})
 	exe := rng.Pick([]string{"/sim/x", "/opt/tsh/bin"})
-	outAbs := rng.Pick([]string{"/sim/out", "/sim/out", "/w/build dir", mount, "/sim/bash", "/sim/batch", "/sim/-t", "/sim/out.d/v1.2"})
+	outAbs := rng.Pick([]string{"/sim/out", "/sim/out", "/w/build dir", mount, "/sim/bash", "/sim/batch", "/sim/-t", "/sim/out.d/v1.2", "/sim/build%20out", "/sim/out [1]"})
 	files := c13World(gw, r.Env, mount, exe)
 	if outAbs != mount {
 		files = append(files, simrt.FileSpec{Path: outAbs, Dir: true})
@@ -214,7 +215,28 @@ func c19Gen(r *Run, rng *gen.Rng, corpus []string) *c19Inv {
 		}
 		return abs
 	}
-	inv.InArg = rel(path.Join(mount, main))
+	inAbs := path.Join(mount, main)
+	if rng.Chance(12) {
+		// the input is named through a symbolic link: another base name in the same directory
+		// (the output is named after the link the user gave), or a link in another directory
+		// (imports are looked up next to the link, exactly as the library does for that path)
+		var link string
+		if rng.Chance(60) || len(gw.Closure) > 1 {
+			link = path.Join(path.Dir(inAbs), "current"+path.Ext(main))
+		} else {
+			link = "/sim/links/latest" + path.Ext(main)
+		}
+		target := inAbs
+		if rng.Chance(50) {
+			if r2, err := filepathRel(path.Dir(link), inAbs); err == nil {
+				target = r2
+			}
+		}
+		files = append(files, simrt.FileSpec{Path: link, Link: target})
+		inAbs = link
+		inv.HasLink = true
+	}
+	inv.InArg = rel(inAbs)
 	inv.OutArg = rel(outAbs)
 	// targets
 	switch rng.Intn(10) {
@@ -335,7 +357,7 @@ func c19Gen(r *Run, rng *gen.Rng, corpus []string) *c19Inv {
 	inv.Spec = simrt.WorldSpec{Devices: devices, Files: files, Cwd: cwd, Exe: path.Join(exe, "tsh"), Args: args,
 		MapMode: rng.Pick([]string{"canonical", "reversed", "shuffle"}), MapSeed: rng.U64(), Epoch: int64(rng.Intn(1 << 30)), Budgets: &b}
 	for _, f := range files {
-		if !f.Dir && (strings.HasPrefix(f.Path, mount+"/") && !strings.HasPrefix(f.Path, outAbs+"/") || strings.HasPrefix(f.Path, exe+"/")) {
+		if !f.Dir && f.Link == "" && (strings.HasPrefix(f.Path, mount+"/") && !strings.HasPrefix(f.Path, outAbs+"/") || strings.HasPrefix(f.Path, exe+"/")) {
 			inv.Protected = append(inv.Protected, f.Path)
 		}
 	}
@@ -355,6 +377,10 @@ func c19Gen(r *Run, rng *gen.Rng, corpus []string) *c19Inv {
 
 func (inv *c19Inv) refKey(target string) string {
 	return shortHash(string(jsonOf(inv.Spec.Files))+inv.Spec.Cwd+inv.Spec.Exe+inv.InArg) + ":" + target
+}
+
+func filepathRel(base, target string) (string, error) {
+	return filepath.Rel(base, target)
 }
 
 func uniq(xs []string) []string {
